@@ -54,6 +54,8 @@ SNIPPETS = {
     'backslash': 'total = 1 + \\\n    2 + \\\n    len("a")\ntotal.\n',
     'semicolons': 'a = 1; b = a; b.\nif a: b = 2; b.\n',
     'unicode': 'größe = 1\nnaïve = größe\nnaï\ngrö\n',
+    'getattr-proxy': 'class Proxy:\n    def __init__(self, t):\n        self._t = t\n    def __getattr__(self, name):\n        if name.startswith("_"):\n            return\n        return getattr(self._t, name)\np = Proxy([])\np.app\np._x.\n',
+    'unclosed-calls': 'def foo(a, b=1):\n    pass\nfoo(\nx = foo(1, \nif x:\n    y = [foo(a=3\n',
     'unterminated': 'def f(:\n    return (1,\nclass\n  x = [\nf(\n',
 }
 # characters that str.splitlines() treats as line boundaries but Python/parso do not (found
